@@ -980,6 +980,10 @@ class OdeSystem(object):
             return
         steps = 0
 
+        if getattr(self.integrator, "final_rhs", None) is not None:
+            # the end slope cached by the integrator belongs to the call that computed it: the constants (or the function) may have changed since
+            self.integrator.final_rhs = None
+
         if not self.__dense_output:
             # without dense output the interpolants only serve the event search of the step in progress: those left over from an earlier
             # call (possibly made in the other direction of time) must not answer queries of this one
